@@ -1053,6 +1053,35 @@ _GAIT = "env/unitree/g1/gait.py"
 # ------------------------------------------------------------------------------------------------ C14: membership tests (per component)
 _SP_PRIMS = {"try_cast": Prim(lambda ex, n, a, k: a[0])}
 
+# ------------------------------------------------------------------------------------------------ C19: LoggingCallback.on_iteration
+def _oniterlog_bind():
+    emitted = []
+
+    def wrapper(ex, n, a, k):
+        if len(a) != 1 or not isinstance(a[0], Prim):
+            fail(n, "callback_with_numpy_wrapper form")
+        if not (isinstance(k.get("ordered"), Sc) and k["ordered"].t == "true"):
+            fail(n, "the log records are not emitted in order (ordered=True)")
+        return a[0]
+
+    def log_scalars(ex, n, a, k):
+        if len(a) != 2 or k or not isinstance(a[0], dict):
+            fail(n, "log_scalars call form")
+        emitted.append((dict(a[0]), a[1]))
+        return Static(None)
+    backend = Obj({"log_scalars": Prim(log_scalars)}, "backend")
+    ctx = Obj({"training_log": {"loss": O("loss")}, "opt_state": O("opt"), "state": O("cbs"), "env": O("env"), "policy": O("pol"),
+               "iteration_count": Z("cnt"),
+               "step_state": Obj({"step": Vec.base("(map l_step sts)", "Z"), "average_return": vecR("(map l_avg_ret sts)"),
+                                  "average_length": vecR("(map l_avg_len sts)")}, "LoggingCallbackStepState")}, "IterationContext")
+    return {"self": Obj({"_backends": [backend], "_record_video_fn": Static(None)}, "LoggingCallback"), "ctx": ctx, "key": K("k"),
+            "@optax.tree_utils.tree_get": Prim(lambda ex, n, a, k: O("lr")), "@callback_with_numpy_wrapper": Prim(wrapper), "@@emitted": emitted}
+
+
+def _oniterlog_out(res, ex):
+    return []       # filled by translate(): the emitted record is read from the bindings (see Kernel.post)
+
+
 # ------------------------------------------------------------------------------------------------ C19: evaluation helper rollout_scan
 def _rscan_bind():
     pol = acpol_obj("P")
@@ -1195,7 +1224,9 @@ KERNELS = {
                    "{Ob Ac Ps : Type} (b : @soa Ob Ac Ps)", _rb_cs_out, carrier="Q"),
             Kernel("sample", "buffer/replay.py", "ReplayBuffer", "sample", _rb_sample_bind,
                    "{Ob Ac Ps : Type} (b : @soa Ob Ac Ps) (batch : nat) (k : kpath)", _rb_sample_out, carrier="Q")],
-    "C19": [Kernel("rscan", "benchmark/__init__.py", None, "rollout_scan", _rscan_bind,
+    "C19": [Kernel("oniterlog", "callback/logging/callback.py", "LoggingCallback", "on_iteration", _oniterlog_bind,
+                   "(sts : list lstate)", _oniterlog_out, carrier="Q"),
+            Kernel("rscan", "benchmark/__init__.py", None, "rollout_scan", _rscan_bind,
                    "{S PS O : Type} (E : env S Q O) (P : acpol PS Q O) (det : bool) (max_steps : nat) (k : kpath)",
                    lambda res, ex: [("value", "Q", term_of(res, "R"))], carrier="Q"),
             Kernel("lnext", "callback/logging/callback.py", "LoggingCallbackStepState", "next", _lnext_bind,
@@ -1238,8 +1269,19 @@ def translate(pid):
             b = k.bindings()
             scope.update({nm[1:]: v for nm, v in b.items() if nm.startswith("@") and "." not in nm})
             ex.prims.update({nm[1:]: v for nm, v in b.items() if nm.startswith("@") and "." in nm})
-            res = run_function(ex, fn, b, scope)
-            out.append((k, sha, k.outputs(res, ex)))
+            res = run_function(ex, fn, {kk: vv for kk, vv in b.items() if not kk.startswith("@@")}, scope)
+            outs = k.outputs(res, ex)
+            if "@@emitted" in b:       # side effects recorded by the oracles of the specification (log records handed to a backend)
+                em = b["@@emitted"]
+                if len(em) != 1 or term_of(res) != "cbs":
+                    raise TranslateError("on_iteration does not emit exactly one record per backend and return its state unchanged")
+                scal, step = em[0]
+                for want in ("episode/return", "episode/length"):
+                    if want not in scal:
+                        raise TranslateError(f"the record lacks {want}")
+                outs = [("step", "Z", term_of(step, "Z")), ("episode_return", "Q", term_of(scal["episode/return"], "R")),
+                        ("episode_length", "Q", term_of(scal["episode/length"], "R"))]
+            out.append((k, sha, outs))
         except TranslateError as e:
             raise TranslateError(f"{k.file}:{k.cls}.{k.func}: {e}") from e
     return out
